@@ -22,6 +22,8 @@ func (o sop) String() string {
 	switch o.kind {
 	case "append":
 		return fmt.Sprintf("Append(%d..%d@t%d)", o.a, o.a+o.n-1, o.t)
+	case "stale":
+		return fmt.Sprintf("Append(stale batch %d..%d)", o.a, o.a+o.n-1)
 	case "snap":
 		return fmt.Sprintf("CreateSnapshot(%d)", o.a)
 	case "compact":
@@ -50,6 +52,35 @@ func storeApply(st *raft.MemoryStorage, m *smodel, o sop) string {
 		m.l.ents = m.l.ents[:o.a-m.l.base-1]
 		for _, e := range ents {
 			m.l.ents = append(m.l.ents, aent{index: e.GetIndex(), term: e.GetTerm(), size: len(e.GetData())})
+		}
+	case "stale":
+		// a stale or duplicated write that reaches back to (or below) the compaction point: the
+		// compacted part is skipped, the rest is an overwrite from there
+		var ents []*pb.Entry
+		lastT, _ := m.l.term(m.l.last())
+		for i := uint64(0); i < o.n; i++ {
+			idx := o.a + i
+			t := m.l.baseTerm
+			if idx > m.l.base {
+				if mt, ok := m.l.term(idx); ok {
+					t = mt
+				} else {
+					t = lastT
+				}
+			}
+			ents = append(ents, &pb.Entry{Index: new(idx), Term: new(t), Data: make([]byte, 1+idx%3)})
+		}
+		if err := st.Append(ents); err != nil {
+			return fmt.Sprintf("%s: %v", o, err)
+		}
+		from := max(o.a, m.l.base+1)
+		if o.a+o.n-1 >= from {
+			m.l.ents = m.l.ents[:from-m.l.base-1]
+			for _, e := range ents {
+				if e.GetIndex() >= from {
+					m.l.ents = append(m.l.ents, aent{index: e.GetIndex(), term: e.GetTerm(), size: len(e.GetData())})
+				}
+			}
 		}
 	case "snap":
 		if _, err := st.CreateSnapshot(o.a, &pb.ConfState{Voters: []uint64{1}}, nil); err != nil {
@@ -88,6 +119,15 @@ func storeEnabled(m *smodel) []sop {
 			}
 		}
 	}
+	if m.l.base >= 2 {
+		for start := max(2, m.l.base-1); start <= m.l.base; start++ {
+			for n := uint64(1); n <= 3; n++ {
+				if start+n-1 <= last+1 {
+					out = append(out, sop{kind: "stale", a: start, n: n})
+				}
+			}
+		}
+	}
 	for i := max(m.snapIdx+1, m.l.base); i <= last; i++ {
 		out = append(out, sop{kind: "snap", a: i})
 	}
@@ -96,6 +136,15 @@ func storeEnabled(m *smodel) []sop {
 	}
 	if last+1 > m.snapIdx {
 		out = append(out, sop{kind: "install", a: last + 1, t: max(lastTerm, 1)}, sop{kind: "install", a: last + 2, t: min(lastTerm+1, 3)})
+	}
+	// a snapshot inside the stored log (same or different term at that index): ApplySnapshot
+	// replaces the whole log, entries behind the snapshot index included
+	for i := m.snapIdx + 1; i <= last; i++ {
+		t, _ := m.l.term(i)
+		out = append(out, sop{kind: "install", a: i, t: t})
+		if t < 3 {
+			out = append(out, sop{kind: "install", a: i, t: t + 1})
+		}
 	}
 	return out
 }
